@@ -118,8 +118,11 @@ pub struct Script {
     pub mw: [[u8; 3]; 3],
     /// before_effect of middleware m removes these positions of the list it receives
     pub mw_remove: [u8; 3],
-    /// reducer 0 parks at this gate
+    /// reducer `rgate_idx` parks at this gate
     pub rgate: u8,
+    pub rgate_idx: u32,
+    /// middleware with this index parks at gate `rgate` in before_reduce (255: none)
+    pub mgate_idx: u8,
     /// gated subscribers park for this action
     pub sgate: bool,
     /// middleware 0 dispatches this many follow-ups synchronously from before_reduce
@@ -136,6 +139,8 @@ impl Script {
             mw: [[V_CONT; 3]; 3],
             mw_remove: [0; 3],
             rgate: NOGATE,
+            rgate_idx: 0,
+            mgate_idx: 255,
             sgate: false,
             mw_dispatch: 0,
             mw_dispatch_script: 0,
@@ -324,7 +329,7 @@ impl Reducer<St, Act> for ScriptedReducer {
         let c = &self.ctx;
         let sc = c.script(act.script);
         c.evz(K::RBeg, self.store, act.id, self.idx, st.digest(), st.steps, st.valid() as u8, act.script);
-        if self.idx == 0 && sc.rgate != NOGATE {
+        if self.idx == sc.rgate_idx && sc.rgate != NOGATE && sc.mgate_idx == 255 {
             c.gate_wait(sc.rgate, self.store, act.id);
         }
         c.perturb();
@@ -382,6 +387,9 @@ impl Middleware<St, Act> for ScriptedMw {
         let c = &self.ctx;
         let sc = c.script(act.script);
         c.evz(K::MBeg, self.store, act.id, self.idx * 4, st.digest(), st.steps, st.valid() as u8, act.script);
+        if sc.mgate_idx as u32 == self.idx && sc.rgate != NOGATE {
+            c.gate_wait(sc.rgate, self.store, act.id);
+        }
         c.perturb();
         if c.read_in_cb {
             c.read(self.store, 2);
